@@ -1540,3 +1540,34 @@ Proof.
   rewrite (lookup_src_quirk pre (data_or_empty r) m k rest Hg Hrest Hk).
   destruct (lookup (last rest k) m); reflexivity.
 Qed.
+
+(* ---------- a backend behind the HTTP proxy: any status but 200/201 is non-successful ------ *)
+
+Lemma http_non2xx_stops m r : ok_status (h_code r) = false ->
+  ok_out (http_outcome m r) = false /\ full_out (http_outcome m r) = false.
+Proof. unfold http_outcome. intros ->. destruct m; split; reflexivity. Qed.
+
+Lemma n_called_stop pre o rest : forallb ok_out pre = true -> ok_out o = false ->
+  n_called (pre ++ o :: rest) = S (List.length pre).
+Proof.
+  induction pre as [|x pre IH]; intros Hp Ho; cbn [app n_called List.length].
+  - rewrite Ho. reflexivity.
+  - cbn [forallb] in Hp. apply andb_true_iff in Hp as [Hx Hp]. rewrite Hx, IH by assumption. reflexivity.
+Qed.
+
+Lemma http_failure_stops_chain ts pre m r rest ps0 :
+  ok_status (h_code r) = false ->
+  forallb (fun x => ok_out (http_outcome (fst x) (snd x))) pre = true ->
+  List.length ts = List.length (pre ++ (m, r) :: rest) ->
+  map shape (fst (seq_run_http ts (pre ++ (m, r) :: rest) ps0)) = expected_shapes (S (List.length pre)).
+Proof.
+  intros Hs Hp Hl. unfold seq_run_http, seq_run.
+  set (outs := map (fun x => http_outcome (fst x) (snd x)) (pre ++ (m, r) :: rest)).
+  pose proof (model_calls_spec (combine (map bcfg_of ts) outs) ps0) as Hm. unfold calls_spec in Hm.
+  rewrite map_snd_combine in Hm by (unfold outs; rewrite !map_length; exact Hl).
+  rewrite Hm. f_equal. unfold outs. rewrite map_app. cbn [map fst snd].
+  rewrite n_called_stop.
+  - rewrite map_length. reflexivity.
+  - rewrite forallb_forall in *. intros o Ho. apply in_map_iff in Ho as (x & <- & Hx). apply Hp. exact Hx.
+  - apply http_non2xx_stops. exact Hs.
+Qed.
